@@ -104,7 +104,10 @@ def _plan(prop, q, n):
             st.append(storm(NORMAL, 20000, n, 1, 32, "dbg20"))
         return st
     if prop == "C03":
-        return [storm(instrumented(ALL), 30000 if q else 300000, n, 1, 24 if q else 40)]
+        st = [storm(instrumented(ALL), 30000 if q else 300000, n, 1, 24 if q else 40)]
+        if not q:  # MSan substitute: the shipped flags (-O2 -DNDEBUG, no sanitizer) under valgrind
+            st.append(dict(storm(CORE + TWIN, 40, n, 1, 24, "rel20"), valgrind=True))
+        return st
     if prop == "C04":
         return [storm(instrumented(NORMAL), 20000 if q else 200000, n, 1, 24 if q else 40),
                 storm(instrumented(NORMAL), 15000 if q else 150000, n, 0, 24 if q else 40)]
@@ -225,12 +228,15 @@ def run_check(prop, tier, seed):
         fl = st["flavour"]
         if fl not in binaries:
             try:
-                binaries[fl] = B.build(fl, ALL if fl in ("asan20", "dbg20") else st["universes"])
+                binaries[fl] = B.build(fl, ALL if fl in ("asan20", "dbg20", "rel20") else st["universes"])
             except B.BuildError as e:
                 print("[check %s] build failed: %s" % (prop, e))
                 print(e.output[-3000:])
                 return 2
-        res = D.run_stage(binaries[fl], fl, st["universes"], st["mode"], st["runs"], seed,
+        runner = binaries[fl]
+        if st.get("valgrind"):
+            runner = ["valgrind", "-q", "--error-exitcode=77", "--exit-on-first-error=yes", binaries[fl]]
+        res = D.run_stage(runner, fl, st["universes"], st["mode"], st["runs"], seed,
                           st["args"] + kargs)
         D.add_stats(agg["stats"], res.stats)
         agg["sigs"] |= res.sigs
@@ -247,7 +253,7 @@ def run_check(prop, tier, seed):
             machinery_error = res.error
         for v in res.violations:
             if n in v.props:
-                mine.append((binaries[fl], v))
+                mine.append((runner, v))
             else:
                 agg["foreign"] += 1
     # property-specific extra stages (grids, tables, other executors)
